@@ -119,6 +119,9 @@ class Ctx:
         s.violations = []     # dicts
         s.calls = {}          # callee sig -> number of call sites presented (lane-level)
         s.sites = set()
+        s.canon = {}          # canon{..} symbol -> residue normal form
+        s.inv_args = {}       # Inv(..) atom -> argument normal form
+        s.symbolic_canon = False
 
     def mul(s, x, y):
         if s.pp is not None and not (x.isconst() or y.isconst()):
@@ -249,17 +252,25 @@ def make_incdec_summary(c, ctx):
 
 
 def toU64_summary(ctx):
+    """toU64 delivers the canonical integer of the residue: concrete for constants; for symbolic values the
+    integer is data dependent and is represented by the opaque symbol canon{nf} (only equality tests on it
+    can be decided, through the caller's `decide` hook)"""
+    def canon(I, x):
+        if x.nf.isconst():
+            return x.nf.cval()
+        if not getattr(ctx, 'symbolic_canon', False):
+            raise Incomplete('toU64 of a symbolic field value (data-dependent integer)')
+        nm = 'canon{%s}' % (x.nf,)
+        ctx.canon[nm] = x.nf
+        return Poly.var(nm)
+
     def f(I, args, ins):
         if len(args) == 2:
             x = to_fv(I.load_cell(args[1], 8))
-            if x.nf.isconst():
-                I.store_cell(args[0], x.nf.cval(), 8)
-                return None
-            raise Incomplete('toU64 of a symbolic field value (data-dependent integer)')
+            I.store_cell(args[0], canon(I, x), 8)
+            return None
         x = to_fv(I.load_cell(args[0], 8))
-        if x.nf.isconst():
-            return x.nf.cval()
-        raise Incomplete('toU64 of a symbolic field value (data-dependent integer)')
+        return canon(I, x)
     return f
 
 
@@ -274,7 +285,9 @@ def inv_summary(ctx):
                 I.sink('exit', 'Goldilocks::inv called with zero')
             r = FV.const(pow(v, P - 2, P))
         else:
-            r = FV(Poly.var('Inv(%s)' % (x.nf,)), 'u64')
+            nm = 'Inv(%s)' % (x.nf,)
+            ctx.inv_args[nm] = x.nf
+            r = FV(Poly.var(nm), 'u64')
         if len(args) == 2:
             I.store_cell(args[0], r, 8)
             return None
@@ -308,14 +321,3 @@ def wrapper_summaries(mod, ctx, scalar=True, only=None):
     return out, missing
 
 
-def apply_inv_rule(nf):
-    """rewrite Inv(t)*t -> 1 where syntactically present (single rewrite rule of the domain)"""
-    changed = True
-    while changed:
-        changed = False
-        for k, c in list(nf.d.items()):
-            for x, e in k:
-                if x.startswith('Inv('):
-                    pass
-        break
-    return nf
